@@ -67,6 +67,7 @@ type VC struct {
 	specTab      *specTable
 	specRecorder func(string) string
 	curSpec      *specInfo
+	nilChecked   map[string][]*ssa.BasicBlock
 }
 
 type loopInfo struct {
@@ -435,7 +436,6 @@ func (vc *VC) execBlock(b *ssa.BasicBlock, initial *State) {
 			for _, in := range ins {
 				vc.curReach = in.cond
 				vc.curBlk = vc.topo[in.p]
-				vc.seq = 1 << 30 // after everything in the predecessor block
 				vc.checkInvariant(li, in.st, "inv-init", nil)
 			}
 			vc.curBlk = bi
@@ -458,7 +458,6 @@ func (vc *VC) execBlock(b *ssa.BasicBlock, initial *State) {
 	}
 	vc.curReach = vc.reachB[b]
 	vc.curBlk = bi
-	vc.seq = 0
 	if li := vc.loops[b]; li != nil && initial == nil {
 		// assume invariants at the head
 		env := vc.loopEnv(li)
@@ -663,6 +662,12 @@ func (vc *VC) scanLoop(li *loopInfo) {
 
 func (vc *VC) havocLoop(li *loopInfo, st *State) {
 	vc.scanLoop(li)
+	pre := st.clone()
+	if li.allocs {
+		na := vc.fresh("h_alloc", "Int")
+		vc.global(sx("<=", st.alloc, na))
+		st.alloc = na
+	}
 	for a := range li.modCells {
 		if a == nil {
 			continue
@@ -674,22 +679,14 @@ func (vc *VC) havocLoop(li *loopInfo, st *State) {
 			nv := Val{K: v.K, T: v.T}
 			nv.S = vc.fresh("h_"+a.Comment, sortOfKind(v.K))
 			st.cells[a] = nv
-			vc.global(implies(vc.reachB[li.header], vc.typeAssume(nv, "|alloc@inf|")))
+			vc.global(implies(vc.reachB[li.header], vc.typeAssume(nv, st.alloc)))
 		}
 	}
-	vc.declare("|alloc@inf|", "Int")
 	var comps []string
 	for c := range li.modComps {
 		comps = append(comps, c)
 	}
 	sort.Strings(comps)
-	pre := st.clone()
-	if li.allocs {
-		na := vc.fresh("h_alloc", "Int")
-		vc.global(sx("<=", st.alloc, na))
-		st.alloc = na
-	}
-	vc.global(sx("<=", st.alloc, "|alloc@inf|"))
 	for _, c := range comps {
 		if _, ok := vc.compSorts[c]; !ok {
 			continue // component never materialised in this function
@@ -741,7 +738,7 @@ func (vc *VC) footprint(comp, av string) (string, bool) {
 				}
 				et := elemTypeOf(sv.T)
 				if isScalarType(et) && elemComp(et) == comp {
-					parts = append(parts, and(sx("(_ is elem)", av), eq(sx("epar", av), sx("sarr", sv.S))))
+					parts = append(parts, and(sx("(_ is elem)", av), eq(sx("epar", av), sx("sarr", sv.S)), sx("<=", sx("soff", sv.S), sx("eidx", av)), sx("<", sx("eidx", av), sx("+", sx("soff", sv.S), sx("slen", sv.S)))))
 				}
 				continue
 			}
@@ -1004,6 +1001,18 @@ func (vc *VC) nilCheck(p Val, what string) {
 	if strings.HasPrefix(p.S, "(fld ") || strings.HasPrefix(p.S, "(elem ") || strings.HasPrefix(p.S, "(root ") || strings.HasPrefix(p.S, "(idx ") || strings.HasPrefix(p.S, "|new_") {
 		return
 	}
+	// a pointer term already checked in a dominating position needs no
+	// second obligation
+	cur := vc.order[vc.curBlk]
+	for _, b := range vc.nilChecked[p.S] {
+		if b == cur || b.Dominates(cur) {
+			return
+		}
+	}
+	if vc.nilChecked == nil {
+		vc.nilChecked = map[string][]*ssa.BasicBlock{}
+	}
+	vc.nilChecked[p.S] = append(vc.nilChecked[p.S], cur)
 	vc.oblige("safe", "nil@"+what, []string{"C03"}, not(eq(p.S, "nil")), nil)
 }
 
